@@ -18,7 +18,16 @@ ASSUMPTIONS = ["reference: harness/ref.py (plain Python ints: //, %, exact /, <<
                "totality is checked on operands inside the documented domain: all operand values, results and comparison differences "
                "satisfy |v| < 2^(bitlength-1); divisors non-zero; exact divisibility for '/'; bitwise/shift operands non-negative, "
                "shift counts and exponents below the bitlength"]
-PARTIAL = []
+PARTIAL = ["C05_program is for runs inside PyFragment (Spec/PyProg.lean, table Instr.pyExcl); excluded with reason: fixedPoint (C14), "
+           "secretLiteral, guardRegion (code under a false guard is inert: C07), ignoreErrors, selectLists (selection between lists under a "
+           "secret condition zips/truncates), secretIndexElems (secret-index access composed for int / secret-int elements only), and the "
+           "recorded deviations invertSecretInt (C05-invert), boolPow (C05-bool-pow), boolBitwiseConst (C05-bool-bitwise-const), "
+           "secretExponentWraps (C05-secret-exponent-mod-p: exactly when x**e, for shifts 2**e, is outside [0,p): C05_powWraps_exact), "
+           "rshiftNegative (C05-rshift-negative)",
+           "C05_program_total additionally needs PySupported (table Instr.pyGap): kinds (API raises by type dispatch / both operands plain), "
+           "and NOT YET COMPOSED: secretExponent (secret exponent / shift count), secretIndex (secret-index array access), assertion "
+           "(assert* methods: C03); and InDomain (exact bounds pyDomBin/pyDomCall; negative divisors of //, %, divmod are outside: "
+           "C05-neg-divisor; contains the harness domain by C05_domain_of_small)"]
 LEVELS = "V"
 INT_OPS = progs.BINOPS
 KINDS = [("L", "L"), ("L", "I"), ("I", "L"), ("B", "B"), ("B", "L"), ("L", "B"), ("B", "I"), ("I", "B")]
